@@ -29,7 +29,7 @@ IdF(id) == Txt(IDName, TRUE, FALSE, 116, id, <<>>, 1, <<Tk(id, 1, <<>>)>>)
 Syn(name, defs) == Inst(name, 1, FALSE, FALSE, 0, <<>>, <<>>, 0, <<>>, defs, <<>>, 0, 0)
 Def(t, syns) == [t |-> t, syns |-> syns]
 
-Vec(name, v, metric) == Inst(name, 2, FALSE, FALSE, 0, <<>>, <<>>, 0, <<>>, <<>>, v, Len(v), metric)
+Vec(name, v, metric) == Inst(name, 2, FALSE, FALSE, 0, <<>>, <<>>, 0, <<>>, <<>>, v, IF name = <<118, 100>> THEN 3 ELSE 2, metric)
 
 Doc(id, fields, comp) == [id |-> id, fields |-> fields, composite |-> comp]
 
@@ -74,5 +74,13 @@ D9 == Doc(id(9), << IdF(id(9)), Txt(fA, TRUE, FALSE, 116, <<9>>, <<>>, 2, << Tk(
 \* 10 a document the installed field validator rejects (the build fails)
 D10 == Doc(id(0), << IdF(id(0)), [Txt(fB, TRUE, TRUE, 116, <<1>>, <<>>, 1, << Tk(bX, 1, <<>>) >>) EXCEPT !.reject = TRUE] >>, <<>>)
 
-Catalogue == << D1, D2, D3, D4, D5, D6, D7, D8, D9, D10 >>
+\* 11..13 vector documents (build tag vectors): one vector; two vectors in one field, one a duplicate of
+\* D11's; a second field with the inner-product metric next to an ordinary field
+fVd == <<118, 100>>
+D11 == Doc(id(3), << IdF(id(3)), Vec(fVec, <<1, 0>>, 0) >>, <<>>)
+D12 == Doc(id(4), << Vec(fVec, <<0, 1, 1, 0>>, 0), IdF(id(4)) >>, <<>>)
+D13 == Doc(id(5), << IdF(id(5)), Vec(fVd, <<2, -1, 1>>, 1), Vec(fVec, <<-2, 2>>, 0),
+                     Txt(fA, TRUE, FALSE, 116, <<1>>, <<>>, 1, << Tk(bA, 1, <<>>) >>) >>, <<>>)
+
+Catalogue == << D1, D2, D3, D4, D5, D6, D7, D8, D9, D10, D11, D12, D13 >>
 =============================================================================
